@@ -67,9 +67,10 @@ BlkHi(m, nj, nb) == Min2(nj, m * BlkX(nj, nb))
 BlkN(m, nj, nb)  == Max2(0, BlkHi(m, nj, nb) - BlkLo(m, nj, nb) + 1)
 \* well-formed blocking: no block starts beyond NINTJ + 1 (a block may be empty, it cannot have a negative extent)
 BlkOK(nj, nb)    == (nb - 1) * BlkX(nj, nb) <= nj
-JBlk == {jb \in (IF Wide THEN {<<1, 1>>, <<2, 1>>, <<2, 2>>, <<3, 1>>, <<3, 2>>, <<3, 3>>, <<4, 3>>, <<5, 2>>, <<5, 3>>, <<6, 4>>}
-                  ELSE {<<1, 1>>, <<2, 2>>, <<3, 1>>, <<3, 2>>, <<4, 3>>}) : BlkOK(jb[1], jb[2])}
-        \* <<NINTJ, NBLOK>>; <<4,3>> and <<6,4>> end with an empty block
+JBlk == {jb \in (IF Wide THEN {<<1, 1>>, <<1, 2>>, <<2, 1>>, <<2, 2>>, <<2, 3>>, <<3, 1>>, <<3, 2>>, <<3, 3>>, <<4, 3>>, <<5, 2>>, <<5, 3>>, <<6, 4>>}
+                  ELSE {<<1, 1>>, <<1, 2>>, <<2, 2>>, <<3, 1>>, <<3, 2>>, <<4, 3>>}) : BlkOK(jb[1], jb[2])}
+        \* <<NINTJ, NBLOK>>; <<1,2>>, <<2,3>> (NBLOK larger than the blocked dimension), <<4,3>> and <<6,4>> end with an
+        \* EMPTY block: a record with no payload, which is still framed (head = tail = 0, 8 bytes on a binary file)
 
 (* ================================================ GEODST ================================================ *)
 GeoKeys == <<"IGOM", "NZONE", "NREG", "NZCL", "NCINTI", "NCINTJ", "NCINTK", "NINTI", "NINTJ", "NINTK", "IMB1", "IMB2",
@@ -171,9 +172,11 @@ NhfVar == Ints(<<"npcbdy", "npcsym", "npcsec", "iwnhfl", "nMoms">>)
 NhfKeys(variant) == IF variant THEN Nhf1D \o NhfVar \o [e \in 1..6 |-> <<"IDUM" \o Pad2(e), "int">>]
                     ELSE Nhf1D \o [e \in 1..11 |-> <<"IDUM" \o Pad2(e), "int">>]
 NhfHdr == {hh \in [variant : BOOLEAN, adjoint : BOOLEAN, ng : 1..2, nz : 1..2, nxy : 1..2, nSurf : IF Wide THEN {2, 3} ELSE {2},
-                   nMom : 1..2, nMoms : 0..1, nscoef : 1..2, next : {0, 2}, npcbdy : {1, 2}, npcsym : 0..1, npcsec : 0..1, iwnhfl : 0..1] :
+                   nMom : 1..2, nMoms : 0..2, nscoef : 1..2, next : {0, 2}, npcbdy : {1, 2}, npcsym : 0..1, npcsec : 0..1, iwnhfl : 0..1] :
               /\ (~hh.variant => hh.nMoms = 0 /\ hh.npcbdy = 1 /\ hh.npcsym = 0 /\ hh.npcsec = 0 /\ hh.iwnhfl = 0)
-              /\ (hh.variant /\ ~Wide => hh.ng = 2 /\ hh.nMom = 1 /\ hh.npcsec = 0 /\ hh.npcbdy = 1)}
+              \* VARIANT: even-parity (nMom) and odd-parity (nMoms) moment counts vary independently, nMoms = 0 included
+              /\ (hh.variant /\ ~Wide => hh.ng = 2 /\ hh.npcsec = 0 /\ hh.npcbdy = 1 /\ hh.nxy = hh.nz
+                                         /\ hh.nscoef = (IF hh.next = 0 THEN 1 ELSE 2))}
 NhfExtPtr(hh) == IF hh.variant THEN hh.npcbdy ELSE hh.next          \* _getNumOuterSurfacesHex
 NhfV(hh) == [ngroup |-> hh.ng, nintk |-> hh.nz, nSurf |-> hh.nSurf, nMom |-> hh.nMom, nintxy |-> hh.nxy,
              npcxy |-> hh.nxy * hh.nSurf + hh.next, nscoef |-> hh.nscoef,
@@ -213,8 +216,10 @@ LabKeys == <<"numZones", "numRegions", "numAreas", "numRegionAreaAssignments", "
              "numNuclideSets", "numZoneAliases", "numTrianglesPerHex", "numHexagonalRings", "numControlRodChannels", "numControlRodBanks",
              "numAxialFineMeshBins", "maxControlRodBankTimes", "maxControlRodsPerBank", "maxControlRodsMeshes", "maxControlRodPieces",
              "maxControlRodChannels", "numBurnupDependentIsotopes", "maxBurnupDependentGroups", "maxBurnupPolynomialOrder", "modelDimensions">>
-LabHdr == [ZR : 1..2, numAreas : {0, 2}, numRAA : 0..1, nh1 : {0, 2}, nh2 : 0..1, nsets : 0..2, nalias : {0, 2}]
-LabV(hh) == [numZones |-> hh.ZR, numRegions |-> 2 * hh.ZR - 1, numAreas |-> hh.numAreas, numRegionAreaAssignments |-> hh.numRAA,
+LabHdr == {hh \in [ZR : 0..2, numAreas : {0, 2}, numRAA : 0..1, nh1 : {0, 2}, nh2 : 0..1, nsets : 0..2, nalias : {0, 2}] :
+              \* ZR = 0 with no areas / assignments: the label record (2D) is present and EMPTY
+              hh.ZR = 0 => hh.nh2 = 0 /\ hh.nalias = 0 /\ hh.nsets # 1}
+LabV(hh) == [numZones |-> hh.ZR, numRegions |-> Max2(0, 2 * hh.ZR - 1), numAreas |-> hh.numAreas, numRegionAreaAssignments |-> hh.numRAA,
              numHalfHeightsDirection1 |-> hh.nh1, numHalfHeightsDirection2 |-> hh.nh2, numNuclideSets |-> hh.nsets,
              numZoneAliases |-> hh.nalias, numControlRodChannels |-> 0, numControlRodBanks |-> 0, maxControlRodBankTimes |-> 0,
              maxControlRodsPerBank |-> 0, maxControlRodsMeshes |-> 0, maxControlRodPieces |-> 0, maxControlRodChannels |-> 0,
@@ -395,9 +400,13 @@ IsoManifest(hh) ==
 IsoDerivedBytes(hh) == 4 + 8 * hh.nNuc + 4 * hh.nNuc         \* numNucs, nuclide names, LOCA
 
 (* ================================================ PMATRX ================================================ *)
-PmxHdr == {hh \in [nng : 1..2, ngg : 1..2, dose : BOOLEAN, nNuc : 1..2, nhd : BOOLEAN, gh : BOOLEAN, nact : 0..1, mso : 0..3] :
-             Wide \/ hh.nng # hh.ngg}
+\* xo: the file-wide maximum order (file id record) exceeds the largest nuclide order by xo; each nuclide announces its
+\* own order in its heading record, and only that many production-matrix records follow (nuclide 2 has order 1, so a
+\* nuclide-1 order of 0 is the DUMMY-nuclide situation: order below the file-wide order)
+PmxHdr == {hh \in [nng : 1..2, ngg : 1..2, dose : BOOLEAN, nNuc : 1..2, nhd : BOOLEAN, gh : BOOLEAN, nact : 0..1, mso : 0..3, xo : 0..1] :
+             Wide \/ (hh.nng # hh.ngg /\ hh.dose = hh.gh)}
 PmxNuc(hh, i) == IF i = 1 THEN [nhd |-> hh.nhd, gh |-> hh.gh, nact |-> hh.nact, mso |-> hh.mso] ELSE [nhd |-> FALSE, gh |-> TRUE, nact |-> 0, mso |-> 1]
+PmxFileOrder(hh) == Max2(hh.mso, IF hh.nNuc = 2 THEN 1 ELSE 0) + hh.xo
 PmxIdInts == <<"maxScatteringOrder", "maxNumberOfCompositions", "maxMaterials", "maxNumberOfRegions", "maxNumberOfCollapsingRegions", "_dummy1", "_dummy2">>
 B2I(b) == IF b THEN 1 ELSE 0
 PmxNucRecords(hh, i) ==
@@ -423,7 +432,8 @@ PmxCount(hh) == [FILEID |-> 1, GROUPS |-> 1, DOSE |-> B2I(hh.dose), ISOS |-> 1, 
 PmxManifest(hh) ==
     <<Dt("md:numberCollapsingSpatialRegions", "int", <<>>, 0, "i32"), Hd("md:numGammaGroups", hh.ngg), Hd("md:numNeutronGroups", hh.nng),
       Hb("md:hasInPlateData", 0), Hb("md:hasDoseConversionFactor", B2I(hh.dose))>>
-    \o [j \in 1..7 |-> Dt("md:" \o PmxIdInts[j], "int", <<>>, 0, "i32")]
+    \o [j \in 1..7 |-> IF PmxIdInts[j] = "maxScatteringOrder" THEN Hd("md:maxScatteringOrder", PmxFileOrder(hh))
+                        ELSE Dt("md:" \o PmxIdInts[j], "int", <<>>, 0, "i32")]
     \o <<Dt("lib:neutronEnergyUpperBounds", "float", <<hh.nng>>, 0, "real"), Dt("md:minimumNeutronEnergy", "float", <<>>, 0, "real"),
          Dt("lib:gammaEnergyUpperBounds", "float", <<hh.ngg>>, 0, "real"), Dt("md:minimumGammaEnergy", "float", <<>>, 0, "real")>>
     \o (IF hh.dose THEN <<Dt("lib:neutronDoseConversionFactors", "float", <<hh.nng>>, 0, "real"), Dt("lib:gammaDoseConversionFactors", "float", <<hh.ngg>>, 0, "real")>> ELSE <<>>)
@@ -558,9 +568,33 @@ ClassOf(f, hh) ==
       [] f = "RZFLUX" -> KV("blocked", B2I(hh.NBLOK > 1))
       [] f = "FIXSRC" -> "any"
       [] f \in {"ISOTXS", "GAMISO"} -> KV("nsblok", hh.nsblok)
-      [] f = "PMATRX" -> KV("nact", hh.nact) \o "," \o KV("order", hh.mso)
+      [] f = "PMATRX" -> KV("nact", hh.nact) \o "," \o KV("order", hh.mso) \o "," \o KV("fileorder", PmxFileOrder(hh))
       [] f = "DLAYXS" -> "any"
       [] f = "COMPXS" -> KV("fwchi", hh.fw) \o "," \o KV("ndelay", B2I(hh.ndel > 0)) \o "," \o KV("chi", hh.chi)
+
+(* ---------- public entry points ----------
+   StreamOf: the stream class (or module) whose readWrite is the grammar above for this (format, flags).
+   EntriesOf: every other public way the package offers to read / write such a file; each must behave exactly like
+   StreamOf: reading the prescribed writer's file returns the written data, writing produces the same bytes.
+     kind "factory": <mod>.<fn>(args) returns the stream class (nhflux.getNhfluxReader, rtflux.getFDFluxReader)
+     kind "alias"  : <mod>.readBinary / readAscii / writeBinary / writeAscii module-level names
+     kind "class"  : <mod>.<fn>.readBinary / ...                                                          *)
+Ent(m, fn, args, kind) == [mod |-> m, fn |-> fn, args |-> args, kind |-> kind]
+NhfStream(adjoint, variant) == IF adjoint THEN (IF variant THEN "NafluxStreamVariant" ELSE "NafluxStream")
+                               ELSE (IF variant THEN "NhfluxStreamVariant" ELSE "NhfluxStream")
+RtfStream(adjoint) == IF adjoint THEN "AtfluxStream" ELSE "RtfluxStream"
+StreamOf(f, hh) == CASE f = "NHFLUX" -> NhfStream(hh.adjoint, hh.variant) [] f = "RTFLUX" -> RtfStream(hh.adjoint)
+                     [] f = "GEODST" -> "GeodstStream" [] f = "DIF3D" -> "Dif3dStream" [] f = "LABELS" -> "LabelsStream"
+                     [] f = "PWDINT" -> "PwdintStream" [] f = "RZFLUX" -> "RzfluxStream" [] OTHER -> "module"
+EntriesOf(f, hh) == CASE f = "NHFLUX" -> <<Ent("nhflux", "getNhfluxReader", <<B2I(hh.adjoint), B2I(hh.variant)>>, "factory")>>
+                      [] f = "RTFLUX" -> <<Ent("rtflux", "getFDFluxReader", <<B2I(hh.adjoint)>>, "factory")>>
+                      [] f = "GEODST" -> <<Ent("geodst", "", <<>>, "alias")>> [] f = "DIF3D" -> <<Ent("dif3d", "", <<>>, "alias")>>
+                      [] f = "LABELS" -> <<Ent("labels", "", <<>>, "alias")>> [] f = "PWDINT" -> <<Ent("pwdint", "", <<>>, "alias")>>
+                      [] f = "RZFLUX" -> <<Ent("rzflux", "", <<>>, "alias")>> [] f = "ISOTXS" -> <<Ent("isotxs", "IsotxsIO", <<>>, "class")>>
+                      [] OTHER -> <<>>
+\* the factories as the package documents them (adjoint -> NAFLUX / ATFLUX, variant -> the VARIANT layout)
+NhfFactory(a, v) == IF a = 1 THEN (IF v = 1 THEN "NafluxStreamVariant" ELSE "NafluxStream") ELSE (IF v = 1 THEN "NhfluxStreamVariant" ELSE "NhfluxStream")
+RtfFactory(a) == IF a = 1 THEN "AtfluxStream" ELSE "RtfluxStream"
 
 (* ================================================ the file as a behaviour =============================== *)
 Recs == Records(fmt, h)
@@ -595,11 +629,15 @@ ConservationLaw == pos = 0 => LET m == Manifest(fmt, h)  rs == Recs IN
                    SumSeq([i \in 1..Len(rs) |-> RecBytes(rs[i].fs)]) = SumSeq([i \in 1..Len(m) |-> EntryBytes(m[i])]) + DerivedBytes(fmt, h)
 \* reader and writer are one grammar; where the reader has to derive a length from the frame it arrives at the writer's
 ReaderWriterCoincide == pos = 0 /\ fmt = "DLAYXS" => DlyReaderLabelWidth(h) = h.L /\ DlyReaderDummy2(h) = h.nd2
+\* every public entry point for a (format, flags) pair selects the stream the grammar prescribes
+EntryLaw == pos = 0 => \A i \in 1..Len(EntriesOf(fmt, h)) :
+                LET e == EntriesOf(fmt, h)[i] IN
+                e.kind = "factory" => (IF e.fn = "getNhfluxReader" THEN NhfFactory(e.args[1], e.args[2]) ELSE RtfFactory(e.args[1])) = StreamOf(fmt, h)
 NoDuplicatePaths == pos = 0 => LET m == Manifest(fmt, h) IN Cardinality({m[i].p : i \in 1..Len(m)}) = Len(m)
 
 (* ---------- the case printed for the harness ---------- *)
 RecObs(r) == [tag |-> r.tag, bytes |-> RecBytes(r.fs), chars |-> RecChars(r.fs), calls |-> RecCalls(r.fs)]
-Case == [fmt |-> fmt, h |-> h, cls |-> ClassOf(fmt, h), encs |-> Encs(fmt), recs |-> [i \in 1..Len(Recs) |-> RecObs(Recs[i])],
+Case == [fmt |-> fmt, h |-> h, cls |-> ClassOf(fmt, h), encs |-> Encs(fmt), stream |-> StreamOf(fmt, h), entries |-> EntriesOf(fmt, h), recs |-> [i \in 1..Len(Recs) |-> RecObs(Recs[i])],
          manifest |-> Manifest(fmt, h), counts |-> Count(fmt, h), binlen |-> FileBytes(fmt, h), asclen |-> FileChars(fmt, h),
          loca |-> IF fmt \in {"ISOTXS", "GAMISO"} THEN IsoLoca(h) ELSE <<>>]
 =====================================================================================================
